@@ -136,11 +136,15 @@ fn ts() -> impl Strategy<Value = Ts> {
 }
 
 fn range() -> impl Strategy<Value = Ext> {
-    (ts(), ts(), prop_oneof![Just(0u64), Just(1), Just(1_000_000_000), 0u64..10_000_000_000_000, Just(u64::MAX)]).prop_map(|(a, b, d)| {
+    (ts(), ts(), prop_oneof![Just(0u64), Just(1), Just(1_000_000_000), 0u64..10_000_000_000_000, Just(u64::MAX), Just(u64::MAX - 1)]).prop_map(|(a, b, d)| {
         // start ≤ end by construction: either two ordered instants or start + a duration
         if d == u64::MAX {
             // the empty range: a span that starts and ends within one clock reading is still a range (Extent::range docs)
             Ext::Range(a, a)
+        } else if d == u64::MAX - 1 {
+            // an INVERTED range (the clock stepped back while a span was open): Extent::range accepts any range, and
+            // "any extent" is in the statement -- no sink may panic on it
+            if a.nanos() <= b.nanos() { Ext::Range(b, a) } else { Ext::Range(a, b) }
         } else if d % 2 == 0 {
             if a.nanos() <= b.nanos() { Ext::Range(a, b) } else { Ext::Range(b, a) }
         } else {
@@ -542,6 +546,7 @@ fn main() {
             ("enum-variant", 230),
             ("error-chain", 120),
             ("extent-empty-range", 100),
+            ("extent-inverted-range", 100),
             ("error-chain:three-links-holding-their-source-inline", 60),
             ("capture-serde", 400),
             ("capture-sval", 400),
